@@ -83,6 +83,7 @@ void h_seq_make_last (void) {
 	expct[lenA] = e;
 	check_list (headA, lenA + 1);
 	check_untouched_B ();
+	VP_CANARY ();
 }
 void h_seq_make_first (void) {
 	int i; nsync_dll_element_ *e;
@@ -94,6 +95,7 @@ void h_seq_make_first (void) {
 	for (i = 0; i < lenA; i++) expct[i + 1] = A (i);
 	check_list (headA, lenA + 1);
 	check_untouched_B ();
+	VP_CANARY ();
 }
 void h_seq_remove (void) {
 	int i, k, n = 0; nsync_dll_element_ *e;
@@ -113,6 +115,7 @@ void h_seq_remove (void) {
 	for (i = 0; i < lenA; i++) if (i != k) expct[n++] = A (i);
 	expct[lenA - 1] = e;
 	check_list (headA, lenA);
+	VP_CANARY ();
 }
 /* append / prepend a whole list (the idiom of mu.c:406: make_last (waiters, last (new_waiters))) */
 void h_seq_append_list (void) {
@@ -122,6 +125,7 @@ void h_seq_append_list (void) {
 	for (i = 0; i < lenA; i++) expct[i] = A (i);
 	for (i = 0; i < lenB; i++) expct[lenA + i] = B (i);
 	check_list (headA, lenA + lenB);
+	VP_CANARY ();
 }
 void h_seq_prepend_list (void) {
 	int i;
@@ -130,6 +134,7 @@ void h_seq_prepend_list (void) {
 	for (i = 0; i < lenB; i++) expct[i] = B (i);
 	for (i = 0; i < lenA; i++) expct[lenB + i] = A (i);
 	check_list (headA, lenA + lenB);
+	VP_CANARY ();
 }
 /* splice_after acts on rings: ring(p) = p p2 .. plast, ring(n) = n .. nlast  ==>  p n .. nlast p2 .. plast */
 void h_seq_splice (void) {
@@ -152,4 +157,5 @@ void h_seq_splice (void) {
 		p = p->prev;
 		__CPROVER_assert (p == expct[i], "C17: splice yields the spliced ring, backwards");
 	}
+	VP_CANARY ();
 }
